@@ -74,6 +74,15 @@ CHECKS.update({
         design="5/C16"),
 })
 
+CHECKS.update({
+    "C20": dict(
+        engine="tgv-ide",
+        technique=FORM_E + "; the completion vocabularies are finite and enumerated whole, the lexer's operator table is probed with every short word and every single-edit neighbour",
+        text="Every label the real completion handler offers in each category is lexed by the real lexer and each statement keyword parsed in a minimal statement; conversely every lowercase word up to the bound, every single-edit neighbour of every known operator name and the names in the lexer source are lexed, and those accepted as operators must be offered; class completion is compared with a reference class table at every parent-class position of every stress-menu workspace and seed.",
+        note="eight deviations of the offered operator list are pinned by a repository snapshot test and listed as known findings",
+        design="5/C20"),
+})
+
 NOT_YET = {}
 
 def main():
